@@ -402,8 +402,17 @@ def _model_cases(ctx, nl):
             defs.append('Definition ee_axis := match geometric_spot_radius 0%Z d_ee with Some g => nanmax_list (flat2 g) | None => nan end.')
             for fi in range(len(F)):
                 r_step, e_step = curves[fi]
+                # a sample radius that coincides with the radius of a ray (the chief ray sits AT the centroid: radius 0 or 1e-17,
+                # depending on the summation order of the mean) is a knife edge for `radii <= r`: compared elsewhere only
+                sx_, sy_, _ = spots[fi][0]
+                fin = np.isfinite(sx_) & np.isfinite(sy_)
+                rad = np.sqrt((sx_[fin] - np.mean(sx_[fin])) ** 2 + (sy_[fin] - np.mean(sy_[fin])) ** 2) if np.any(fin) else np.array([])
+                scale = 1.0 + (float(np.max(rad)) if len(rad) else 0.0)
+                safe = [bool(len(rad) == 0 or np.min(np.abs(rad - r)) > 1e-9 * scale) for r in r_step]
+                mask = '[' + '; '.join('true' if b else 'false' for b in safe) + ']'
                 add('ee-curve', f'match center_spots 0%Z d_ee with Some c => match nth_error c {fi} with Some [s] => '
-                                f'let \'(rs, es) := ee_curve s ee_axis {fh(1.2)} {npts} in close_list {TOL} rs {_fl(r_step)} && close_list {TOL} es {_fl(e_step)} '
+                                f'let \'(rs, es) := ee_curve s ee_axis {fh(1.2)} {npts} in close_list {TOL} rs {_fl(r_step)} && '
+                                f'close_list {TOL} (lmask (O:=FOps) es {mask}) {_fl([e for e, b in zip(e_step, safe) if b])} '
                                 f'| _ => false end | None => false end')
         except Exception as e:   # noqa
             raised('EncircledEnergy', e)
